@@ -29,7 +29,8 @@ public:
     }
 
     void ActivateChannel(u16 value) {
-        active_channel = value;
+        // CHANNEL is a 3-bit field (dma.md); there are eight channels
+        active_channel = value & 7;
     }
     u16 GetActiveChannel() const {
         return active_channel;
